@@ -78,8 +78,47 @@ fn run_entry(entry: u8, data: &[u8]) -> bool {
     }
 }
 
+/// When set, children are started with diagnostics switched on: a `log` logger and a `tracing` subscriber at the most
+/// verbose level that format every argument (what an application with logging enabled makes the library do).
+pub static WITH_DIAGNOSTICS: std::sync::atomic::AtomicBool = std::sync::atomic::AtomicBool::new(false);
+
+struct EagerLog;
+impl log::Log for EagerLog {
+    fn enabled(&self, _: &log::Metadata) -> bool { true }
+    fn log(&self, r: &log::Record) { let s = format!("{}", r.args()); std::hint::black_box(s); }
+    fn flush(&self) {}
+}
+static EAGER_LOG: EagerLog = EagerLog;
+
+struct EagerTrace;
+struct EagerVisit;
+impl tracing::field::Visit for EagerVisit {
+    fn record_debug(&mut self, _f: &tracing::field::Field, v: &dyn std::fmt::Debug) { let s = format!("{:?}", v); std::hint::black_box(s); }
+}
+impl tracing::Subscriber for EagerTrace {
+    fn enabled(&self, _: &tracing::Metadata<'_>) -> bool { true }
+    fn new_span(&self, a: &tracing::span::Attributes<'_>) -> tracing::span::Id { a.record(&mut EagerVisit); tracing::span::Id::from_u64(1) }
+    fn record(&self, _: &tracing::span::Id, v: &tracing::span::Record<'_>) { v.record(&mut EagerVisit); }
+    fn record_follows_from(&self, _: &tracing::span::Id, _: &tracing::span::Id) {}
+    fn event(&self, e: &tracing::Event<'_>) { e.record(&mut EagerVisit); }
+    fn enter(&self, _: &tracing::span::Id) {}
+    fn exit(&self, _: &tracing::span::Id) {}
+}
+
 /// Child: reads [u8 entry][u32 len][bytes]* from stdin, answers [u8 outcome][u64 peak][u64 largest] each.
 pub fn child_main() -> i32 {
+    // the parent reads this process's stderr only when it has exited: say little (a pipe full of panic messages would block)
+    {
+        static PRINTED: std::sync::atomic::AtomicUsize = std::sync::atomic::AtomicUsize::new(0);
+        std::panic::set_hook(Box::new(|info| {
+            if PRINTED.fetch_add(1, std::sync::atomic::Ordering::SeqCst) < 5 { eprintln!("{}", info.to_string().chars().take(300).collect::<String>()); }
+        }));
+    }
+    if std::env::var("VERIF_PROBE_DIAGNOSTICS").is_ok() {
+        let _ = log::set_logger(&EAGER_LOG);
+        log::set_max_level(log::LevelFilter::Trace);
+        let _ = tracing::subscriber::set_global_default(EagerTrace);
+    }
     let handle = std::thread::Builder::new().stack_size(2 * 1024 * 1024).name("probe-2MiB".into()).spawn(|| {
         let stdin = std::io::stdin();
         let mut inp = stdin.lock();
@@ -134,8 +173,10 @@ fn run_shard(exe: &std::path::Path, inputs: &[(u8, Vec<u8>)]) -> Vec<ProbeResult
     let mut out: Vec<ProbeResult> = Vec::with_capacity(inputs.len());
     let mut next = 0usize;
     while next < inputs.len() {
-        let mut child = Command::new(exe).arg("probe").stdin(Stdio::piped()).stdout(Stdio::piped()).stderr(Stdio::piped())
-            .env("RUST_BACKTRACE", "0").spawn().expect("spawn probe child");
+        let mut cmd = Command::new(exe);
+        cmd.arg("probe").stdin(Stdio::piped()).stdout(Stdio::piped()).stderr(Stdio::piped()).env("RUST_BACKTRACE", "0");
+        if WITH_DIAGNOSTICS.load(std::sync::atomic::Ordering::SeqCst) { cmd.env("VERIF_PROBE_DIAGNOSTICS", "1"); } else { cmd.env_remove("VERIF_PROBE_DIAGNOSTICS"); }
+        let mut child = cmd.spawn().expect("spawn probe child");
         let mut cin = child.stdin.take().unwrap();
         let mut cout = child.stdout.take().unwrap();
         let mut cerr = child.stderr.take().unwrap();
